@@ -499,6 +499,14 @@ func init() {
 				}
 			}
 		}
+		// the clients against the repository's own request handler and store (own process: its clock tells
+		// the handler's readings from the clients'): a delayed duplicate of an interleaved request after the
+		// receive timestamp it names has been issued again
+		if r.Only() == "" || r.Only() == "reissued-rx" {
+			if o := r.RunLeg("plain", "c03reissue", 2*time.Minute, nil); !o.OK {
+				r.Class("reissued-rx:leg did not finish")
+			}
+		}
 		r.Assume("loopback with kernel software timestamps; the scripted server reads the same machine clock, so causality between client and server readings holds without tolerance beyond NTP-timestamp truncation (a few ns)")
 		r.Assume("the client's clock before 2036 (era 0) while server clocks range +-68 years; the mirror case is decided at function level by C04")
 		r.Finish("sequences of 5..16 measurements per client (IP and SCION, interleaved mode off/on, spy filter or none) against two scripted servers: per exchange a server clock offset from a pool (0, +-1 ns, ms, s, hours, years, +-(2^31-2^20) s) or random, clock steps between exchanges, "+
